@@ -52,6 +52,7 @@ from .packet import (
     push_quic_transport_parameters,
 )
 from .packet_builder import QuicDeliveryState, QuicPacketBuilder, QuicPacketBuilderStop
+from .rangeset import RangeSet
 from .recovery import QuicPacketRecovery, QuicPacketSpace
 from .stream import FinalSizeError, QuicStream, StreamFinishedError
 
@@ -90,7 +91,8 @@ MAX_PENDING_CRYPTO = 524288  # in bytes
 NetworkAddress = Any
 
 # frame sizes
-ACK_FRAME_CAPACITY = 64  # FIXME: this is arbitrary!
+ACK_FRAME_CAPACITY = 1 + 4 * UINT_VAR_MAX_SIZE  # with a single range
+ACK_RANGE_CAPACITY = 2 * UINT_VAR_MAX_SIZE  # each additional range
 APPLICATION_CLOSE_FRAME_CAPACITY = 1 + 2 * UINT_VAR_MAX_SIZE  # + reason length
 CONNECTION_LIMIT_FRAME_CAPACITY = 1 + UINT_VAR_MAX_SIZE
 HANDSHAKE_DONE_FRAME_CAPACITY = 1
@@ -3234,21 +3236,29 @@ class QuicConnection:
         ack_delay = now - space.largest_received_time
         ack_delay_encoded = int(ack_delay * 1000000) >> self._local_ack_delay_exponent
 
+        # Only acknowledge as many of the most recent ranges as fit in the packet.
+        ack_queue = space.ack_queue
+        max_ranges = (
+            1
+            + max(0, builder.remaining_buffer_space - ACK_FRAME_CAPACITY)
+            // ACK_RANGE_CAPACITY
+        )
+        if len(ack_queue) > max_ranges:
+            ack_queue = RangeSet(ack_queue[-max_ranges:])
+
         buf = builder.start_frame(
             QuicFrameType.ACK,
-            capacity=ACK_FRAME_CAPACITY,
+            capacity=ACK_FRAME_CAPACITY + (len(ack_queue) - 1) * ACK_RANGE_CAPACITY,
             handler=self._on_ack_delivery,
             handler_args=(space, space.largest_received_packet),
         )
-        ranges = push_ack_frame(buf, space.ack_queue, ack_delay_encoded)
+        ranges = push_ack_frame(buf, ack_queue, ack_delay_encoded)
         space.ack_at = None
 
         # log frame
         if self._quic_logger is not None:
             builder.quic_logger_frames.append(
-                self._quic_logger.encode_ack_frame(
-                    ranges=space.ack_queue, delay=ack_delay
-                )
+                self._quic_logger.encode_ack_frame(ranges=ack_queue, delay=ack_delay)
             )
 
         # check if we need to trigger an ACK-of-ACK
